@@ -291,6 +291,8 @@ def make_penalty(name, rng, p, alpha, groups=None, positive=False, n_tasks=None,
             wts = rng.uniform(0.5, 2.0, size=len(groups))
             if o.get("zero_weights", False) and len(groups) > 1:
                 wts[rng.choice(len(groups), max(1, len(groups) // 4), replace=False)] = 0.0     # unpenalised groups
+            for u in o.get("null_units", []):
+                wts[u] = 0.0
         prm.update(weights=wts, positive=positive)
         return (P.WeightedGroupL2(alpha, np.asarray(wts, float), ptr, ind, positive),
                 R.RefPenalty("group", alpha=alpha, weights=np.asarray(wts, float), groups=groups, positive=positive),
